@@ -7,13 +7,20 @@
 //!   h_wire gen N S    prints `G <name> <frame hex> <rt 0|1>`: random VALUES of the message types
 //!                     whose codecs are hand-written/irregular, built with the public struct
 //!                     constructors; rt = 1 iff decoding the encoding gives an equal value.
+//!   h_wire fields S   field-codec tier, OUTSIDE a wire frame (lengths beyond LN_MAX_MSG_LEN allowed):
+//!                     `F CL n hex` / `F CLDEC hex res` (CollectionLength), `F BS n hex` / `F BSDEC hex res`
+//!                     (BigSize), `F SA hex res` (SocketAddress descriptor decode; res = `Ok <re-encoded>
+//!                     <consumed>` | `Unknown <byte> <consumed>` | `Err e`), and judged round trips
+//!                     `F RT <what> <param> <ok|FAIL:why|PANIC>` of every variable-length field type and of
+//!                     whole messages at each codec's length thresholds, each under catch_unwind.
 use bitcoin::hashes::Hash;
 use bitcoin::secp256k1::{PublicKey, Secp256k1, SecretKey};
 use lightning::ln::msgs::{self, SocketAddress};
 use lightning::ln::types::ChannelId;
 use lightning::ln::wire::verif_hooks_wire::wire_read;
 use lightning::types::features::{ChannelFeatures, InitFeatures, NodeFeatures};
-use lightning::util::ser::{Hostname, LengthReadable, Writeable};
+use lightning::util::ser::{BigSize, CollectionLength, FixedLengthReader, Hostname, LengthReadable, Readable, Writeable};
+use lightning::util::ser::verif_hooks_ser as hz;
 use verif_harness::*;
 
 fn valid_offsets(frame: &[u8]) -> String {
@@ -81,7 +88,14 @@ fn address(rng: &mut Rng) -> SocketAddress {
 			port: rng.next() as u16,
 		},
 		_ => {
-			let n = 1 + rng.below(20) as usize;
+			let n = match rng.below(8) {
+				0 => 0,
+				1 => 252,
+				2 => 253,
+				3 => 254,
+				4 => 255,
+				_ => 1 + rng.below(20) as usize,
+			};
 			let s: String = (0..n).map(|_| (b'a' + (rng.below(26) as u8)) as char).collect();
 			SocketAddress::Hostname { hostname: Hostname::try_from(s).unwrap(), port: rng.next() as u16 }
 		},
@@ -145,7 +159,7 @@ fn gen_one(rng: &mut Rng, which: u64) -> (&'static str, String, bool) {
 			("ChannelUpdate", h, ok)
 		},
 		4 => {
-			let naddr = rng.below(4) as usize;
+			let naddr = match rng.below(6) { 0 => 0, 1 => 1, 2 => 40, _ => rng.below(4) as usize };
 			let contents = msgs::UnsignedNodeAnnouncement {
 				features: { let n = pick_len(rng) % 20; NodeFeatures::from_le_bytes(bytes(rng, n)) },
 				timestamp: rng.next() as u32,
@@ -263,6 +277,334 @@ fn gen_one(rng: &mut Rng, which: u64) -> (&'static str, String, bool) {
 	}
 }
 
+fn host(n: usize) -> Hostname {
+	let s: String = (0..n).map(|i| (b'a' + (i % 26) as u8) as char).collect();
+	Hostname::try_from(s).unwrap()
+}
+
+fn guarded<F: FnOnce() -> Result<(), String>>(what: &str, param: String, f: F) {
+	let r = std::panic::catch_unwind(std::panic::AssertUnwindSafe(f));
+	match r {
+		Ok(Ok(())) => println!("F RT {} {} ok", what, param),
+		Ok(Err(why)) => println!("F RT {} {} FAIL:{}", what, param, why.replace(' ', "_")),
+		Err(_) => println!("F RT {} {} PANIC", what, param),
+	}
+}
+
+/// encode -> decode with the type's own `Readable`, equality, full consumption
+fn rt_readable<T: Writeable + Readable + PartialEq>(v: &T) -> Result<(), String> {
+	let enc = v.encode();
+	let mut r = &enc[..];
+	match T::read(&mut r) {
+		Ok(v2) => {
+			if &v2 != v {
+				Err("decoded value differs".to_string())
+			} else if !r.is_empty() {
+				Err(format!("{} bytes left unread", r.len()))
+			} else {
+				Ok(())
+			}
+		},
+		Err(e) => Err(format!("decode error {:?}", e)),
+	}
+}
+fn rt_msg<T: Writeable + LengthReadable + PartialEq>(v: &T) -> Result<(), String> {
+	let enc = v.encode();
+	let mut r = &enc[..];
+	match T::read_from_fixed_length_buffer(&mut r) {
+		Ok(v2) => if &v2 != v { Err("decoded value differs".to_string()) } else { Ok(()) },
+		Err(e) => Err(format!("decode error {:?}", e)),
+	}
+}
+
+fn show_res<T: std::fmt::Display>(r: Result<(T, usize), String>) -> String {
+	match r {
+		Ok((v, rem)) => format!("Ok {} {}", v, rem),
+		Err(e) => format!("Err {}", e.split('(').next().unwrap()),
+	}
+}
+
+fn fields(seed: u64) {
+	let mut rng = Rng(seed);
+	std::panic::set_hook(Box::new(|_| {}));
+	// ---- CollectionLength
+	let cl_vals: Vec<u64> = vec![0, 1, 2, 0xfffd, 0xfffe, 0xffff, 0x10000, 0x10001, 0x1fffe, 0x1ffff, 1 << 32, u64::MAX - 0xffff - 1, u64::MAX - 0xffff, u64::MAX - 1, u64::MAX, rng.next(), rng.below(1 << 20)];
+	let mut cl_hex: Vec<String> = Vec::new();
+	for n in cl_vals.iter() {
+		let r = std::panic::catch_unwind(|| CollectionLength(*n).encode());
+		match r {
+			Ok(e) => {
+				println!("F CL {} {}", n, hex(&e));
+				cl_hex.push(hex(&e));
+				cl_hex.push(format!("{}00", hex(&e)));
+			},
+			Err(_) => println!("F CL {} PANIC", n),
+		}
+	}
+	for h in ["", "ff", "ffff", "ffff00", "ffff00000000000000", "ffff0000000000000000", "ffffffffffffffffffff", "ffffffffffffffff0000", "ffffffffffffffff0001", "ffff0000000000000001ab", "fffe", "fffeab", "0000", "00"] {
+		cl_hex.push(h.to_string());
+	}
+	for h in cl_hex.iter() {
+		let b = unhex(h);
+		let r = std::panic::catch_unwind(|| {
+			let mut s = &b[..];
+			<CollectionLength as Readable>::read(&mut s).map(|c| (c.0, s.len())).map_err(|e| format!("{:?}", e))
+		});
+		match r {
+			Ok(x) => println!("F CLDEC {} {}", if h.is_empty() { "-" } else { h }, show_res(x)),
+			Err(_) => println!("F CLDEC {} PANIC", h),
+		}
+	}
+	// ---- BigSize
+	let bs_vals: Vec<u64> = vec![0, 1, 0xfb, 0xfc, 0xfd, 0xfe, 0xff, 0x100, 0xfffe, 0xffff, 0x10000, 0x10001, 0xfffffffe, 0xffffffff, 0x100000000, 0x100000001, u64::MAX - 1, u64::MAX, rng.next()];
+	let mut bs_hex: Vec<String> = Vec::new();
+	for n in bs_vals.iter() {
+		let e = BigSize(*n).encode();
+		println!("F BS {} {}", n, hex(&e));
+		bs_hex.push(format!("{}7f", hex(&e)));
+	}
+	for h in ["", "fd", "fd00", "fd00fc", "fd00fd", "fdffff", "fe", "fe0000ffff", "fe00010000", "feffffffff", "ff", "ff00000000ffffffff", "ff0000000100000000", "ffffffffffffffffff", "ffffffffffffffff", "fc", "00"] {
+		bs_hex.push(h.to_string());
+	}
+	for h in bs_hex.iter() {
+		let b = unhex(h);
+		let mut s = &b[..];
+		let x = <BigSize as Readable>::read(&mut s).map(|c| (c.0, s.len())).map_err(|e| format!("{:?}", e));
+		println!("F BSDEC {} {}", if h.is_empty() { "-" } else { h }, show_res(x));
+	}
+	// ---- HighZeroBytesDroppedBigSize (judged here: canonical, round trip, padded form rejected)
+	for v in [0u64, 1, 0xff, 0x100, 0xffff, 0x10000, 0xffffffff, 0x100000000, u64::MAX, rng.next() >> rng.below(64)] {
+		guarded("hzb_u64", v.to_string(), || {
+			let e = hz::hzb_encode_u64(v);
+			if e.first() == Some(&0) {
+				return Err("encoding starts with a zero byte".to_string());
+			}
+			if hz::hzb_decode_u64(&e) != Ok(v) {
+				return Err("round trip".to_string());
+			}
+			if e.len() < 8 {
+				let mut padded = vec![0u8];
+				padded.extend_from_slice(&e);
+				if hz::hzb_decode_u64(&padded).is_ok() && !e.is_empty() {
+					return Err("padded encoding accepted".to_string());
+				}
+			}
+			Ok(())
+		});
+	}
+	for v in [0u32, 1, 0xff, 0x100, 0xffff, 0x10000, u32::MAX] {
+		guarded("hzb_u32", v.to_string(), || {
+			let e = hz::hzb_encode_u32(v);
+			if e.first() == Some(&0) || hz::hzb_decode_u32(&e) != Ok(v) {
+				return Err("round trip / canonical".to_string());
+			}
+			Ok(())
+		});
+	}
+	// ---- length-prefixed collections and strings at the CollectionLength / u16 thresholds
+	for l in [0usize, 1, 2, 0xfffd, 0xfffe, 0xffff, 0x10000, 0x10001] {
+		guarded("vec_u8", l.to_string(), || rt_readable(&vec![0x5au8; l]));
+		guarded("string", l.to_string(), || rt_readable(&"x".repeat(l)));
+		guarded("vec_u32", l.to_string(), || rt_readable(&vec![7u32; l]));
+		guarded("vec_channel_id", l.to_string(), || rt_readable(&vec![ChannelId([3u8; 32]); l]));
+		guarded("msg:PeerStorage.data", l.to_string(), || rt_msg(&msgs::PeerStorage { data: vec![1u8; l] }));
+		guarded("msg:TxAbort.data", l.to_string(), || rt_msg(&msgs::TxAbort { channel_id: ChannelId([1; 32]), data: vec![2u8; l] }));
+	}
+	{
+		let mut r2 = Rng(seed ^ 7);
+		let s = sig(&mut r2);
+		for l in [0usize, 1, 483, 0xfffe, 0xffff, 0x10000] {
+			guarded("msg:CommitmentSigned.htlc_signatures", l.to_string(), || {
+				rt_msg(&msgs::CommitmentSigned { channel_id: ChannelId([1; 32]), signature: s, htlc_signatures: vec![s; l], funding_txid: None })
+			});
+		}
+	}
+	// u16-prefixed fields
+	for l in [0usize, 1, 0xfffe, 0xffff] {
+		guarded("script", l.to_string(), || rt_readable(&bitcoin::ScriptBuf::from(vec![0x51u8; l])));
+		guarded("msg:Shutdown.scriptpubkey", l.to_string(), || {
+			rt_msg(&msgs::Shutdown { channel_id: ChannelId([1; 32]), scriptpubkey: bitcoin::ScriptBuf::from(vec![0x51u8; l]) })
+		});
+		guarded("init_features", l.to_string(), || {
+			let mut b = vec![0u8; l];
+			if l > 0 {
+				b[l - 1] = 1;
+			}
+			rt_readable(&InitFeatures::from_le_bytes(b))
+		});
+		guarded("node_features", l.to_string(), || {
+			let mut b = vec![0u8; l];
+			if l > 0 {
+				b[l - 1] = 1;
+			}
+			rt_readable(&NodeFeatures::from_le_bytes(b))
+		});
+		guarded("msg:ErrorMessage.data", l.to_string(), || rt_msg(&msgs::ErrorMessage { channel_id: ChannelId([1; 32]), data: "e".repeat(l) }));
+		guarded("msg:WarningMessage.data", l.to_string(), || rt_msg(&msgs::WarningMessage { channel_id: ChannelId([1; 32]), data: "w".repeat(l) }));
+	}
+	for l in [0u16, 1, 64, 0xfffd, 0xfffe] {
+		guarded("msg:Ping.byteslen", l.to_string(), || rt_msg(&msgs::Ping { ponglen: l, byteslen: l }));
+		guarded("msg:Pong.byteslen", l.to_string(), || rt_msg(&msgs::Pong { byteslen: l }));
+	}
+	for n in [0usize, 1, 2, 8190, 8191] {
+		let ch = bitcoin::constants::ChainHash::from([5u8; 32]);
+		guarded("msg:QueryShortChannelIds.scids", n.to_string(), || rt_msg(&msgs::QueryShortChannelIds { chain_hash: ch, short_channel_ids: vec![0x0102030405060708; n] }));
+		guarded("msg:ReplyChannelRange.scids", n.to_string(), || {
+			rt_msg(&msgs::ReplyChannelRange { chain_hash: ch, first_blocknum: 1, number_of_blocks: 2, sync_complete: true, short_channel_ids: vec![0x0102030405060708; n] })
+		});
+	}
+	// ---- hostnames and socket addresses
+	let mut sa_hex: Vec<String> = Vec::new();
+	for l in [0usize, 1, 2, 63, 251, 252, 253, 254, 255] {
+		guarded("hostname", l.to_string(), || rt_readable(&host(l)));
+		let a = SocketAddress::Hostname { hostname: host(l), port: 0x1234 };
+		guarded("sockaddr_hostname", l.to_string(), || rt_readable(&a));
+		sa_hex.push(hex(&a.encode()));
+		// a node_announcement carrying it first / last / alone, through the announcement's own length arithmetic
+		for pos in 0..3 {
+			let mut addrs = Vec::new();
+			if pos == 1 {
+				addrs.push(SocketAddress::TcpIpV4 { addr: [1, 2, 3, 4], port: 1 });
+			}
+			addrs.push(a.clone());
+			if pos == 2 {
+				addrs.push(SocketAddress::OnionV2([9; 12]));
+			}
+			let mut r2 = Rng(seed ^ (l as u64) ^ ((pos as u64) << 20));
+			guarded("msg:NodeAnnouncement.hostname", format!("{}@{}", l, pos), || rt_msg(&node_ann(&mut r2, addrs, vec![], vec![])));
+		}
+	}
+	// address lists: none, one of each kind, many, total descriptor length at the u16 boundaries
+	{
+		let kinds = vec![
+			SocketAddress::TcpIpV4 { addr: [1, 2, 3, 4], port: 9735 },
+			SocketAddress::TcpIpV6 { addr: [6; 16], port: 9736 },
+			SocketAddress::OnionV2([2; 12]),
+			SocketAddress::OnionV3 { ed25519_pubkey: [3; 32], checksum: 0xabcd, version: 3, port: 9737 },
+			SocketAddress::Hostname { hostname: host(255), port: 9738 },
+		];
+		for a in kinds.iter() {
+			guarded("sockaddr", format!("kind{}", a.encode()[0]), || rt_readable(a));
+			sa_hex.push(hex(&a.encode()));
+		}
+		let mut r2 = Rng(seed ^ 99);
+		guarded("msg:NodeAnnouncement.addresses", "none".to_string(), || rt_msg(&node_ann(&mut r2, vec![], vec![], vec![1, 2, 3])));
+		guarded("msg:NodeAnnouncement.addresses", "each_kind".to_string(), || rt_msg(&node_ann(&mut r2, kinds.clone(), vec![], vec![])));
+		// 253 hostnames of 255 bytes: 253 * 259 = 65527 descriptor bytes; fill up with excess address data
+		// (an unknown descriptor type 6 followed by filler) to reach exactly 0xfffe and 0xffff
+		for total in [65527usize, 0xfffe, 0xffff] {
+			let addrs = vec![kinds[4].clone(); 253];
+			let fill = total - 65527;
+			let excess: Vec<u8> = if fill == 0 { vec![] } else { let mut e = vec![6u8]; e.extend(std::iter::repeat(0xee).take(fill - 1)); e };
+			guarded("msg:NodeAnnouncement.addresses", format!("total{}", total), || rt_msg(&node_ann(&mut r2, addrs, excess, vec![])));
+		}
+		guarded("msg:NodeAnnouncement.addresses", "many_mixed".to_string(), || {
+			let mut addrs = Vec::new();
+			for i in 0..200 {
+				addrs.push(kinds[i % 5].clone());
+			}
+			rt_msg(&node_ann(&mut r2, addrs, vec![], vec![7; 10]))
+		});
+		guarded("msg:Init.remote_network_address", "each_kind".to_string(), || {
+			for a in kinds.iter() {
+				rt_msg(&msgs::Init { features: InitFeatures::from_le_bytes(vec![0x80, 0x20]), networks: None, remote_network_address: Some(a.clone()) })?;
+			}
+			Ok(())
+		});
+	}
+	// hand-assembled descriptors for the decoder (and the model)
+	for h in ["", "01", "0101020304", "010102030426", "01010203042607ff", "02", "0300", "05", "0500", "050000", "05000001", "0501", "050161", "0501610001", "05012e0001", "0501200001", "0501c30001", "0502c3a90001", "05ff61", "06", "0601", "00", "ff00", "04"] {
+		sa_hex.push(h.to_string());
+	}
+	{
+		let mut long = vec![5u8, 255];
+		long.extend(std::iter::repeat(b'a').take(255));
+		sa_hex.push(hex(&long));
+		long.extend([0u8, 1]);
+		sa_hex.push(hex(&long));
+		long.push(0x77);
+		sa_hex.push(hex(&long));
+	}
+	for h in sa_hex.iter() {
+		let b = unhex(h);
+		let r = std::panic::catch_unwind(|| {
+			let mut s = &b[..];
+			match <Result<SocketAddress, u8> as Readable>::read(&mut s) {
+				Ok(Ok(a)) => format!("Ok {} {}", hex(&a.encode()), b.len() - s.len()),
+				Ok(Err(t)) => format!("Unknown {} {}", t, b.len() - s.len()),
+				Err(e) => format!("Err {}", format!("{:?}", e).split('(').next().unwrap()),
+			}
+		});
+		println!("F SA {} {}", if h.is_empty() { "-" } else { h }, r.unwrap_or_else(|_| "PANIC".to_string()));
+	}
+	// ---- FixedLengthReader-bounded reads never go past the bound
+	guarded("flr", "vec_longer_than_bound".to_string(), || {
+		let data = [0u8, 10, 1, 2, 3, 4, 5, 6, 7, 8, 9, 10, 11, 12];
+		let mut inner = &data[..];
+		let mut r = FixedLengthReader::new(&mut inner, 5);
+		let res = <Vec<u8> as Readable>::read(&mut r);
+		if res.is_ok() {
+			return Err("read beyond the bound succeeded".to_string());
+		}
+		let _ = r.eat_remaining();
+		if inner.len() != data.len() - 5 {
+			return Err(format!("inner reader consumed {} bytes, bound 5", data.len() - inner.len()));
+		}
+		Ok(())
+	});
+	guarded("flr", "exact".to_string(), || {
+		let data = [0u8, 2, 0xaa, 0xbb, 0xcc];
+		let mut inner = &data[..];
+		let mut r = FixedLengthReader::new(&mut inner, 4);
+		let v = <Vec<u8> as Readable>::read(&mut r).map_err(|e| format!("{:?}", e))?;
+		if v != vec![0xaa, 0xbb] || r.bytes_remain() {
+			return Err("wrong value or bytes remain".to_string());
+		}
+		if r.eat_remaining().is_ok() || inner.len() != 1 {
+			// 4 bytes of bound, 4 consumed by the vec: eat_remaining is Ok; keep the check simple
+		}
+		Ok(())
+	});
+	guarded("flr", "short_inner".to_string(), || {
+		let data = [1u8, 2];
+		let mut inner = &data[..];
+		let mut r = FixedLengthReader::new(&mut inner, 8);
+		if <u64 as Readable>::read(&mut r).is_ok() {
+			return Err("u64 from 2 bytes".to_string());
+		}
+		if r.eat_remaining().is_ok() {
+			return Err("eat_remaining succeeded on a short inner reader".to_string());
+		}
+		Ok(())
+	});
+	guarded("option_u64", "len_prefixed".to_string(), || {
+		rt_readable(&Some(0x0102030405060708u64))?;
+		rt_readable(&None::<u64>)?;
+		// Option<T>: BigSize(len + 1) then T inside a FixedLengthReader; a too-short bound must fail
+		let mut s = &[5u8, 1, 2, 3, 4, 9, 9, 9, 9][..];
+		if <Option<u64> as Readable>::read(&mut s).is_ok() {
+			return Err("Option<u64> read past its declared length".to_string());
+		}
+		Ok(())
+	});
+}
+
+fn node_ann(rng: &mut Rng, addresses: Vec<SocketAddress>, excess_address_data: Vec<u8>, excess_data: Vec<u8>) -> msgs::NodeAnnouncement {
+	msgs::NodeAnnouncement {
+		signature: sig(rng),
+		contents: msgs::UnsignedNodeAnnouncement {
+			features: NodeFeatures::from_le_bytes(vec![1, 2]),
+			timestamp: rng.next() as u32,
+			node_id: lightning::routing::gossip::NodeId::from_pubkey(&key(rng)),
+			rgb: [1, 2, 3],
+			alias: lightning::routing::gossip::NodeAlias([7; 32]),
+			addresses,
+			excess_address_data,
+			excess_data,
+		},
+	}
+}
+
 fn main() {
 	let args: Vec<String> = std::env::args().collect();
 	match args.get(1).map(|s| s.as_str()) {
@@ -273,6 +615,7 @@ fn main() {
 				println!("{}", hex(&key(&mut rng).serialize()));
 			}
 		},
+		Some("fields") => fields(args.get(2).and_then(|x| x.parse().ok()).unwrap_or(1)),
 		Some("gen") => {
 			let n: u64 = args[2].parse().unwrap();
 			let mut rng = Rng(args[3].parse().unwrap());
